@@ -1032,7 +1032,7 @@ def pool_specs(pid, tier):
 def run_history(pid, tier, seed):
     run = Run(pid, tier, seed, "HISTORY-MC")
     specs = seeded_order(pool_specs(pid, tier), seed)
-    cap = 1500 if tier == "quick" else 8000
+    cap = 1500 if tier == "quick" else (8000 if pid == "C09" else 4000)   # (the C10 invariant is evaluated in every state: dearer)
     check_c10 = pid == "C10"
 
     def worker(chunk):
